@@ -12,7 +12,7 @@ import re
 from vlib import core, pipeline
 
 SPECDIR = "calcgraph"
-ALL_UNIVERSES = ["policy", "order", "ipsets", "ipsets-nft", "routes"]
+ALL_UNIVERSES = ["policy", "order", "ipsets", "ipsets-nft", "routes", "routes6"]
 
 
 def export_catalogue(ctx):
